@@ -540,7 +540,7 @@ func c20Payment(c *core.Ctx) {
 			c.Ob("C20-R5", fd.Name()+"#accumulators", fd.Decl.Pos(), false, "no amount accumulation found")
 		}
 		for i, a := range accs {
-			if why := everyIteration(p, fd.Pkg.TypesInfo, fd.Decl.Body, a.Assign, nilTestOnly(fd.Pkg.TypesInfo)); why != "" {
+			if why := everyIteration(p, fd.Pkg.TypesInfo, fd.Decl.Body, a.Assign, nilTestOfOperands(fd.Pkg.TypesInfo, a.Assign)); why != "" {
 				c.Ob("C20-R5", fmt.Sprintf("%s#%s%d:%s#every-line", fd.Name(), strings.ToLower(a.Op), i+1, types.ExprString(a.Dest)), a.Assign.Pos(), false,
 					"the accumulation is not executed for every line: "+why)
 			}
